@@ -1331,6 +1331,39 @@ def rule_R29(toks, fired):
     return toks
 
 
+def rule_R30(toks, fired):
+    """X.map(|PAT| E).sum()  ->  { let mut r30_s: usize = 0; for PAT in X { r30_s += E; } r30_s }
+    (definition of map + sum at type usize; the `+=` makes the no-overflow condition of the sum a proof obligation)"""
+    n = 0
+    i = 0
+    while i < len(toks):
+        t = toks[i]
+        if t.kind == "ident" and t.text == "map" and not t.syn and toks[prev_code(toks, i - 1)].text == "." \
+                and toks[next_code(toks, i + 1)].text == "(":
+            dot = prev_code(toks, i - 1)
+            p = next_code(toks, i + 1)
+            pe = match_close(toks, p)
+            d2 = next_code(toks, pe + 1)
+            m2 = next_code(toks, d2 + 1)
+            p2 = next_code(toks, m2 + 1)
+            if not (toks[d2].text == "." and toks[m2].text == "sum" and toks[p2].text == "(" and next_code(toks, p2 + 1) == match_close(toks, p2)):
+                i += 1
+                continue
+            pat, body = _closure_parts(toks, p, pe)
+            a = _postfix_start(toks, dot)
+            recv = toks[a:dot]
+            n += 1
+            sv = f"r30_s{n}"
+            new = (synth(f"{{ let mut {sv}: usize = 0; ") + [_for_tok(), S(" ", "ws")] + pat + synth(" in ") + recv
+                   + synth(f" {{ {sv} += ") + body + synth(f"; }} {sv} }}"))
+            toks = toks[:a] + new + toks[match_close(toks, p2) + 1:]
+            fired["R30"] = fired.get("R30", 0) + 1
+            i = a + 1
+            continue
+        i += 1
+    return toks
+
+
 def rule_R18(toks, fired):
     """bare max(a, b) / min(a, b) (core::cmp, imported by `use`) -> usize_max(a, b) / usize_min(a, b): the generic
     Ord-based functions have no Verus spec; the prelude helpers are ASSUMED to be the usize instances"""
@@ -1451,9 +1484,9 @@ def rule_R12(toks, fired):
     return out
 
 
-RULES = {"R29": rule_R29, "R28": rule_R28, "R27": rule_R27, "R26": rule_R26, "R25": rule_R25, "R24": rule_R24, "R23": rule_R23, "R22": rule_R22, "R21": rule_R21, "R20": rule_R20, "R19": rule_R19, "R18": rule_R18, "R17": rule_R17, "R13": rule_R13, "R5": rule_R5, "R1": rule_R1, "R1f": rule_R1f, "R2": rule_R2, "R3": rule_R3, "R4": rule_R4, "R6": rule_R6, "R7": rule_R7,
+RULES = {"R30": rule_R30, "R29": rule_R29, "R28": rule_R28, "R27": rule_R27, "R26": rule_R26, "R25": rule_R25, "R24": rule_R24, "R23": rule_R23, "R22": rule_R22, "R21": rule_R21, "R20": rule_R20, "R19": rule_R19, "R18": rule_R18, "R17": rule_R17, "R13": rule_R13, "R5": rule_R5, "R1": rule_R1, "R1f": rule_R1f, "R2": rule_R2, "R3": rule_R3, "R4": rule_R4, "R6": rule_R6, "R7": rule_R7,
          "R10": rule_R10, "R11": rule_R11, "R12": rule_R12}
-RULE_ORDER = ["R12", "R25", "R7", "R6", "R13", "R18", "R19", "R17", "R21", "R22", "R23", "R24", "R26", "R27", "R28", "R29", "R20", "R10", "R4", "R3", "R5", "R11", "R2", "R1", "R1f"]
+RULE_ORDER = ["R12", "R25", "R7", "R6", "R13", "R18", "R19", "R17", "R21", "R22", "R23", "R24", "R26", "R27", "R28", "R29", "R30", "R20", "R10", "R4", "R3", "R5", "R11", "R2", "R1", "R1f"]
 
 
 def apply_rules(toks, rules, fired):
